@@ -60,6 +60,8 @@ def call(fn, *args, **kwargs):
     exceptions (SpinDetected and friends) propagate."""
     try:
         return normalize(fn(*args, **kwargs))
+    except HardAbort:
+        return Raises('BlockAbort')
     except (SpinDetected, KeyboardInterrupt, SystemExit, MemoryError):
         raise
     except Exception as exc:
@@ -95,22 +97,39 @@ class BlockAbort(Exception):
     """Raised by the harness inside a transaction block."""
 
 
+class HardAbort(BaseException):
+    """Like BlockAbort but not an Exception (KeyboardInterrupt, SystemExit,
+    GeneratorExit, CancelledError behave like this)."""
+
+
 def impl_op(c, op):
     name = op[0]
     a = op[1:]
     if name == 'block':
         # ('block', body, raise_after): raise_after=None commits
+        # an optional 4th field 'hard' aborts with a BaseException
+        abort = HardAbort if len(a) > 2 and a[2] == 'hard' else BlockAbort
+
         def run_block():
             out = []
             with c.transact():
                 for i, b in enumerate(a[0]):
                     if a[1] is not None and i == a[1]:
-                        raise BlockAbort()
+                        raise abort()
                     out.append(impl_op(c, b))
                 if a[1] is not None and a[1] >= len(a[0]):
-                    raise BlockAbort()
+                    raise abort()
             return tuple(out)
         return call(run_block)
+    if name == 'iternext':
+        # a suspended iteration: the first call creates the iterator and
+        # takes one key, later calls take the next one
+        def run_next():
+            it = c.__dict__.get('_verif_iter')
+            if it is None:
+                it = c.__dict__['_verif_iter'] = iter(c)
+            return next(it, 'END')
+        return call(run_next)
     if name == 'check':
         # ('check', fix): kinds of the warnings reported
         def run_check():
@@ -227,6 +246,11 @@ def model_op(s, op):
             return Raises('BlockAbort')
         s.__dict__.update(trial.__dict__)
         return tuple(out)
+    if name == 'iternext':
+        n = s.__dict__.get('_iter_taken', 0)
+        keys = s.keys()
+        s.__dict__['_iter_taken'] = n + 1
+        return keys[n] if n < len(keys) else 'END'
     if name == 'check':
         return []          # an undamaged cache: nothing to report
     if name == 'open':
